@@ -440,6 +440,147 @@ func runC14(c *core.Ctx) core.Meta {
 		}
 	}
 
+	// ---------------- R14.6 released wavefronts leave the internal-execution list ----------------
+	st6 := c.Rule("R14.6", "in the pass over internally executing wavefronts, the list that replaces s.internalExecuting is purged of the work-group's wavefronts on every path on which a barrier was passed (wavefronts that waited in that list were set ready by the release and must not be evaluated again); a wavefront whose instruction completed is not kept in the list", 2)
+	if fn := c.MustFunc("R14.6", cuPkg, "SchedulerImpl.EvaluateInternalInst"); fn != nil {
+		c.MarkAnalysed(fn)
+		g := core.BuildGraph(fn, 0, nil)
+		// the local list that is stored back into s.internalExecuting
+		var repl ssa.Value
+		listVals := map[ssa.Value]bool{}
+		var collect func(v ssa.Value, d int)
+		collect = func(v ssa.Value, d int) {
+			if v == nil || listVals[v] || d > 12 {
+				return
+			}
+			listVals[v] = true
+			switch x := v.(type) {
+			case *ssa.UnOp:
+				if a, ok := x.X.(*ssa.Alloc); ok {
+					listVals[a] = true
+					if a.Referrers() != nil {
+						for _, r := range *a.Referrers() {
+							if st, ok := r.(*ssa.Store); ok && st.Addr == ssa.Value(a) {
+								collect(st.Val, d+1)
+							}
+						}
+					}
+				}
+			case *ssa.Phi:
+				for _, e := range x.Edges {
+					collect(e, d+1)
+				}
+			case *ssa.Call:
+				if core.IsBuiltin(x, "append") && len(x.Call.Args) > 0 {
+					collect(x.Call.Args[0], d+1)
+				}
+			}
+		}
+		for _, n := range g.Nodes {
+			if s, ok := storeToField(n.Instr, "SchedulerImpl.internalExecuting"); ok {
+				if _, isMake := s.Val.(*ssa.MakeSlice); isMake || core.IsNilConst(s.Val) {
+					continue
+				}
+				repl = s.Val
+				collect(s.Val, 0)
+			}
+		}
+		st6.Instances++
+		st6.Ob(repl != nil)
+		if repl == nil {
+			c.ReportAt("R14.6", fn, fn.Pos(), "replacement-list", "the pass no longer rebuilds s.internalExecuting from a local list")
+		} else {
+			for _, n := range g.Nodes {
+				call, ok := n.Instr.(*ssa.Call)
+				if !ok || call.Call.StaticCallee() == nil || call.Call.StaticCallee().Name() != "evalSBarrier" {
+					continue
+				}
+				var pass ssa.Value
+				if call.Referrers() != nil {
+					for _, r := range *call.Referrers() {
+						if ex, ok := r.(*ssa.Extract); ok && ex.Index == 2 {
+							pass = ex
+						}
+					}
+				}
+				st6.Instances++
+				if pass == nil {
+					st6.Ob(false)
+					c.ReportAt("R14.6", fn, n.Instr.Pos(), "passBarrier:ignored", "the pass ignores whether evalSBarrier released the barrier")
+					continue
+				}
+				purges := func(x *core.Node) bool {
+					c2, ok := x.Instr.(*ssa.Call)
+					if !ok {
+						return false
+					}
+					if core.IsBuiltin(c2, "append") || core.IsBuiltin(c2, "len") {
+						return false
+					}
+					for _, a := range c2.Call.Args {
+						if listVals[a] {
+							return true
+						}
+					}
+					return false
+				}
+				leak := false
+				g.Walk(core.After(n, core.Facts{}), core.WalkOpts{ForwardOnly: true, Stop: purges}, func(x core.State) {
+					// only the path on which the barrier was passed matters: prune with the fact at the If on `pass`
+				})
+				// walk from the true edge of `if passBarrier`
+				for _, m := range g.Nodes {
+					ifi, ok := m.Instr.(*ssa.If)
+					if !ok || ifi.Cond != pass {
+						continue
+					}
+					g.Walk([]core.State{{N: m.Succs[0]}}, core.WalkOpts{ForwardOnly: true, Stop: purges}, func(x core.State) {
+						if purges(x.N) {
+							return
+						}
+						if _, isR := x.N.Instr.(*ssa.Return); isR {
+							leak = true
+						}
+						for _, sc := range x.N.Succs {
+							if g.IsBack(x.N, sc) {
+								leak = true
+							}
+						}
+					})
+				}
+				st6.Ob(!leak)
+				st6.Sample("EvaluateInternalInst: barrier release purges the rebuilt list: %v", !leak)
+				if leak {
+					c.ReportAt("R14.6", fn, n.Instr.Pos(), "release:list-not-purged", "when a barrier is released, wavefronts of the group that were already kept in the rebuilt internal-execution list are not removed: they stay in internal execution although they were set ready, are evaluated again and advance their PC twice (skipping an instruction, e.g. the next barrier)")
+				}
+			}
+		}
+		// a completed instruction is not kept
+		st6.Instances++
+		okKeep := true
+		for _, n := range g.Nodes {
+			call, ok := n.Instr.(*ssa.Call)
+			if !ok || !core.IsBuiltin(call, "append") || len(call.Call.Args) == 0 {
+				continue
+			}
+			if !listVals[call.Call.Args[0]] {
+				continue
+			}
+			// guarded by instCompleted == false: the If on a phi named instCompleted
+			guarded := g.Guarded(n, boolCut(func(_ *core.Node, v ssa.Value) bool {
+				ph, ok := v.(*ssa.Phi)
+				return ok && ph.Comment == "instCompleted"
+			}, false))
+			if !guarded {
+				okKeep = false
+			}
+		}
+		st6.Ob(okKeep)
+		if !okKeep {
+			c.ReportAt("R14.6", fn, fn.Pos(), "keep:completed", "a wavefront is kept in internal execution although its instruction completed")
+		}
+	}
+
 	// ---------------- R14.5 work-group completion once (R09.6) ----------------
 	st5 := c.Rule("R14.5", "the work-group completion message is built only where all other wavefronts of the group were found completed; the group's resources are released and the last wavefront marked completed only after the message was sent; a failed send is retried", 3)
 	isWGMsg := func(in ssa.Instruction) bool {
